@@ -14,6 +14,7 @@ EXTENDS Decimal, SequencesExt, FiniteSets, TLC
 CONSTANTS Objects,     \* set of object values <<"o", members>>
           Arrays,      \* set of array values  <<"a", elements>>
           Keys,        \* keys used in queries (present and absent)
+          LongKeys,    \* additional (long) keys: used in FindKey, one- and two-step paths and filters, not in the cubic path set
           Numbers      \* literals for the numeric accessors (floats: no exponent, exactly representable)
 
 VARIABLES q, out
@@ -67,13 +68,15 @@ AsFloatAnswer(a) == IF AllNum(a) THEN <<"val", [i \in 1..Len(a[2]) |-> a[2][i][2
 AsStringAnswer(a) == IF ElemKinds(a) \subseteq {"s"} THEN <<"val", [i \in 1..Len(a[2]) |-> a[2][i][2]]>> ELSE <<"error">>
 
 \* ---- queries --------------------------------------------------------------------
-PathsUpTo3 == {<<k>> : k \in Keys} \cup {<<k1, k2>> : k1 \in Keys, k2 \in Keys}
+PathsUpTo3 == {<<k>> : k \in Keys \cup LongKeys} \cup {<<k1, k2>> : k1 \in Keys, k2 \in Keys \cup LongKeys}
               \cup {<<k1, k2, k3>> : k1 \in Keys, k2 \in Keys, k3 \in Keys}
 
 Queries ==
-  {[t |-> "findkey", o |-> o, k |-> k] : o \in Objects, k \in Keys}
+  {[t |-> "findkey", o |-> o, k |-> k] : o \in Objects, k \in Keys \cup LongKeys}
   \cup {[t |-> "findpath", o |-> o, p |-> p] : o \in Objects, p \in PathsUpTo3}
   \cup {[t |-> "foreach", o |-> o, f |-> F] : o \in {x \in Objects : UniqueKeys(x)}, F \in SUBSET Keys}
+  \cup {[t |-> "foreach", o |-> o, f |-> F \cup L] : o \in {x \in Objects : UniqueKeys(x) /\ KeysOfObj(x) \cap LongKeys # {}},
+                                                       F \in SUBSET {k \in Keys : Len(k) = 1}, L \in (SUBSET LongKeys) \ {{}}}
   \cup {[t |-> "elements", o |-> o] : o \in Objects}
   \cup {[t |-> "array", a |-> a] : a \in Arrays}
   \cup {[t |-> "number", l |-> l] : l \in Numbers}
